@@ -16,7 +16,9 @@ RULE = ("C01's assemblies (all enzymes, chains 1-4, every participant at a drawn
         "retained arc: parts inside / flush with either boundary / the whole arc / "
         "crossing a boundary / in the discarded region / whole record / anywhere; "
         "1-3 parts; strands +1/-1/None; origin-spanning parts written as compound "
-        "joins and as the past-the-end form produced by a real extra rotation. "
+        "joins and as the past-the-end form produced by a real extra rotation; in a "
+        "third of the cases some participants are inspected (is_valid, overhangs, "
+        "target_sequence) before the call. "
         "Oracle: multiset of (type, qualifiers, {(product position, strand)}) of the "
         "features lying entirely inside their record's retained arc, mapped through "
         "arc -> product offset, must EQUAL the multiset of the product's "
@@ -46,6 +48,7 @@ def run_annotated(spec, fresh=True, **kw):
     def go():
         vec = V(recs[0])
         mods = [M(r) for r in recs[1:]]
+        annot.touch([vec] + mods, spec)
         with warnings.catch_warnings(record=True) as w:
             warnings.simplefilter("always")
             return vec.assemble(*[mods[i] for i in spec["order"]], **kw), w
